@@ -30,6 +30,10 @@ Preds == { Cmp("eq", nI, IntL(1)), Cmp("ne", sI, NullL), Cmp("eq", bI, BoolL("tr
            Cmp("gt", Bin("mod", Un("neg", nI), IntL(3)), IntL(0)),
            Coll(Id0("cs"), "any", None), Coll(Id0("cs"), "any", Lam(Id0("x"), Cmp("gt", Attr(Id0("x"), "n"), IntL(1)))),
            Coll(Id0("cs"), "all", Lam(Id0("x"), Cmp("ne", Attr(Id0("x"), "n"), NullL))),
+           \* identifiers that begin with a keyword, after "(" "," ":" and before ")" ","
+           Cmp("in", Id0("notes"), Lst(<<Id0("index"), Id0("andy"), Id0("order")>>)),
+           Cmp("eq", Call(Id0("concat"), <<Id0("subtotal"), Id0("initials")>>), Id0("equal")),
+           Coll(Id0("cs"), "any", Lam(Id0("inv"), Cmp("gt", Attr(Id0("inv"), "n"), Id0("nexus")))),
            Cmp("eq", Id0("dur"), Lit("Duration", "P1DT2H")), Cmp("eq", Call(Id0("now"), <<>>), dI) }
 Expand(s) == { <<0, x>> : x \in Preds }
        \cup { <<1, Bool(o, HB, HB)>> : o \in {"and", "or"} }
